@@ -54,13 +54,16 @@ Proof. exact write_data_cases. Qed.
    bytes, oldest first) is accepted by the host-side rule checker `accept` of SdSpec.v (rules 1-14:
    FF fill, frame format, no command while busy, ACMD prefix, identification order, data commands only
    when ready, data-block format and CRC, multi-block termination).
-   `in_range`: block indices below the card's capacity, 512-byte blocks.  (Out-of-range and faulty
-   runs are covered by the tie: the checker is run on every recorded implementation trace.) *)
+   `legal_call`: the transfer lies inside the card (512-byte blocks), or it starts at or beyond the
+   card's capacity - then the card rejects the command, the driver reports ReadError / WriteError
+   and the conversation stays legal (calls after errors).  Not covered by the theorem: a multi-block
+   transfer that starts inside the card and runs off its end (the tie covers it: the checker is run
+   on every recorded implementation trace, including out-of-range and faulted runs). *)
 Theorem C14_legal : forall (o : opts) (kd : kind) (csd : list N) (tim : timing),
   legal_timing tim -> addressable kd csd -> is_csd csd -> CSD_STRUCTURE csd = 0 \/ CSD_STRUCTURE csd = 1 ->
-  forall (mem0 : N -> list N) (cs : list api_call), mem_ok mem0 -> Forall (in_range csd) cs ->
+  forall (mem0 : N -> list N) (cs : list api_call), mem_ok mem0 -> Forall (legal_call csd) cs ->
   exists s', run_calls card card_spi o cs [] (init_st card (power_on kd csd tim mem0)) =
-               (rev (map Ok (spec_values kd csd mem0 cs)), s') /\
+               (rev (spec_values kd csd mem0 cs), s') /\
              c_mem (dev s') = spec_mem kd csd mem0 cs /\
              accept (rev (tr s')) = true.
 Proof. exact legal_histories. Qed.
